@@ -25,6 +25,11 @@ ImplSubst(v, m) ==
                  [] t.k \in {"typevar", "typed", "newtype", "generic", "seq"} -> SubclassT(t)
                  [] OTHER -> AnyT
       [] v.k = "union" -> IF v.ms = << >> THEN v ELSE ImplUnite([i \in 1..Len(v.ms) |-> ImplSubst(v.ms[i], m)])
+      \* TypedDictValue.substitute_typevars (value.py:1670): entry types substituted, required / readonly kept
+      [] v.k = "typeddict" -> TD([i \in 1..Len(v.items) |-> [v.items[i] EXCEPT !.t = ImplSubst(@, m)]])
+      \* DictIncompleteValue.substitute_typevars (value.py:1360) / KVPair.substitute_typevars (value.py:1318):
+      \* key and value substituted, is_many / is_required kept
+      [] v.k = "dictinc" -> DictInc([i \in 1..Len(v.kvs) |-> [v.kvs[i] EXCEPT !.key = ImplSubst(@, m), !.val = ImplSubst(@, m)]])
       [] OTHER -> v
 
 RECURSIVE FreeVars(_)
@@ -34,6 +39,8 @@ FreeVars(v) ==
       [] v.k = "seq" -> UNION {FreeVars(v.ms[i].t) : i \in 1..Len(v.ms)}
       [] v.k = "subclass" -> FreeVars(v.t)
       [] v.k = "union" -> UNION {FreeVars(v.ms[i]) : i \in 1..Len(v.ms)}
+      [] v.k = "typeddict" -> UNION {FreeVars(v.items[i].t) : i \in 1..Len(v.items)}
+      [] v.k = "dictinc" -> UNION {FreeVars(v.kvs[i].key) \cup FreeVars(v.kvs[i].val) : i \in 1..Len(v.kvs)}
       [] OTHER -> {}
 Closed(v) == FreeVars(v) = {}
 
@@ -48,13 +55,11 @@ IsWellFormedUnion(v) == v.k = "union" => (Len(v.ms) # 1 /\ NoNestedUnion(v))
 (* known to deviate (see known_findings.jsonl)                             *)
 (***************************************************************************)
 U2(a, b) == ImplUnite(<<a, b>>)
-\* TypedDict terms [k |-> "typeddict", items |-> <<[key, req, t]..>>] take part in the equality / hash / union laws only
-\* (Member and ImplCA are not defined on them yet)
-TD(items) == [k |-> "typeddict", items |-> items]
-Ent(key, req, t) == [key |-> key, req |-> req, t |-> t]
+\* TypedDict terms (TD / Ent of Values.tla) take part in the equality / hash / union / substitution laws here; their
+\* assignability and membership laws are checked by Assign.tla (C03 / C04)
 RECURSIVE HasTD(_)
 HasTD(v) ==
-    CASE v.k = "typeddict" -> TRUE
+    CASE v.k \in {"typeddict", "dictinc"} -> TRUE
       [] v.k = "generic" -> \E i \in 1..Len(v.args) : HasTD(v.args[i])
       [] v.k = "seq" -> \E i \in 1..Len(v.ms) : HasTD(v.ms[i].t)
       [] v.k = "subclass" -> HasTD(v.t)
@@ -97,7 +102,14 @@ AlgComposites ==
      Union(<<Typed("int"), Typed("str"), Known(NONE)>>), Union(<<Known(Cont("list", <<I1>>)), Typed("int")>>),
      TD(<<Ent("a", TRUE, Typed("int")), Ent("b", TRUE, Typed("str"))>>), TD(<<Ent("b", TRUE, Typed("str")), Ent("a", TRUE, Typed("int"))>>),
      TD(<<Ent("a", TRUE, Typed("int"))>>), TD(<<Ent("a", TRUE, Typed("int")), Ent("b", FALSE, Typed("str"))>>),
-     Union(<<TD(<<Ent("a", TRUE, Typed("int")), Ent("b", TRUE, Typed("str"))>>), Typed("int")>>)}
+     Union(<<TD(<<Ent("a", TRUE, Typed("int")), Ent("b", TRUE, Typed("str"))>>), Typed("int")>>),
+     TD(<<EntX("a", FALSE, TRUE, Generic("list", <<TV("T")>>))>>),
+     \* dict displays with optional / unpacked entries (DictIncompleteValue), with and without type variables
+     DictInc(<<Pair(Known(SA), Generic("list", <<Typed("int")>>), FALSE, FALSE), Pair(Known(SE), Typed("int"), FALSE, TRUE)>>),
+     DictInc(<<Pair(Known(SA), Generic("list", <<TV("T")>>), FALSE, FALSE)>>),
+     DictInc(<<Pair(Known(SA), Generic("list", <<TV("T")>>), FALSE, TRUE)>>),
+     DictInc(<<Pair(Typed("str"), TV("T"), TRUE, FALSE)>>),
+     DictInc(<<Pair(Known(SA), Typed("int"), FALSE, FALSE)>>)}
 AlgSpace == AlgAtoms \cup AlgComposites
 TvMaps == {[T |-> Typed("int")], [T |-> Union(<<Typed("int"), Typed("str")>>)], [T |-> Typed("str"), S |-> Known(I1)],
            [T |-> TV("S")], [T |-> AnyT], [S |-> Typed("bool")]}
